@@ -101,7 +101,7 @@ def trace_runs(path):
 
 # ------------------------------------------------------------------------------------------ TLC
 def tlc_cmd(module, cfg, workers, metadir, xmx="3g", extra=None):
-    return ["java", "-XX:+UseParallelGC", "-Xmx" + xmx, "-cp", TLA_CP, "tlc2.TLC", "-workers", str(workers), "-metadir", metadir,
+    return ["java", "-XX:+UseParallelGC", "-Xss128m", "-Xmx" + xmx, "-cp", TLA_CP, "tlc2.TLC", "-workers", str(workers), "-metadir", metadir,
             "-config", cfg, module] + (extra or [])
 
 
